@@ -30,6 +30,25 @@ class Facts:
         self.layouts = r['layouts']
         self.other_items = r['other_items']
         self._cg = None
+        # public free functions are anchored by their exported name: which private module defines them is not observable
+        for name in ('encode', 'decode'):
+            if name not in self.fns:
+                cands = [f for f in self.fns.values() if f.name == name and f.kind == 'Fn' and f.reachable and not f.impl_self_adt and not f.impl_trait]
+                if len(cands) == 1:
+                    f = cands[0]
+                    dict.__delitem__(self.fns, f.path)
+                    f.defined_at = f.path
+                    f.path = name
+                    f.x['path'] = name
+                    f.body.owner = name
+                    self.fns[name] = f
+        self.consts = {x['path']: x['val'] for x in self.other_items if 'val' in x}
+        CONST_VALUES.update(self.consts)
+        for f in self.fns.values():
+            m2 = model_std_calls(f.body.mir)
+            if m2 is not None:
+                f.x['mir'] = m2
+                f.body = Body(self, m2, f.path)
         self.flat = {}
         try:
             flatten_private_aggregates(self)
@@ -869,6 +888,8 @@ def hcanon(e, env=None):
             if env is not None and e['id'] in env:
                 return env[e['id']]
             return ('local', e['name'])
+        if e.get('path') in CONST_VALUES:
+            return ('const', CONST_VALUES[e['path']])       # a named integer constant is its value
         return ('def', e.get('path'))
     if k == 'lit':
         if 'int' in e:
@@ -987,6 +1008,47 @@ def for_loop_parts(e):
                 return (pats[0], it, arm['body'])
     except (KeyError, IndexError, TypeError):
         return None
+    return None
+
+
+def counted_loop(iter_expr, pat):
+    """(index variable name, start expr | None meaning 0, end expr) when `for PAT in ITER` visits consecutive indexes:
+    `for i in a..b`, `for (i, x) in s[..n].iter_mut().enumerate()`, `for (x, i) in s[a..b].iter().zip(a..)` (and the mirrored
+    `(a..).zip(s[a..b].iter())`); None otherwise"""
+    it = strip_refs(iter_expr)
+    rg = is_range_struct(it)
+    if rg is not None:
+        if rg[0] is not None and rg[1] is not None and not rg[2] and pat.get('k') == 'bind':
+            return pat['name'], rg[0], rg[1]
+        return None
+
+    def sliced(e):
+        """X[a..b].iter() / iter_mut() / into_iter() -> (a | None, b)"""
+        e = strip_refs(e)
+        if e.get('k') == 'mcall' and e.get('name') in ('iter', 'iter_mut', 'into_iter') and not e.get('args'):
+            e = strip_refs(e['recv'])
+        if e.get('k') == 'index':
+            r = is_range_struct(e['idx'])
+            if r is not None and r[1] is not None and not r[2]:
+                return r[0], r[1]
+        return None
+    if pat.get('k') != 'tuple' or len(pat.get('pats', [])) != 2:
+        return None
+    p0, p1 = pat['pats']
+    if it.get('k') == 'mcall' and it.get('name') == 'enumerate' and not it.get('args'):
+        sl = sliced(it['recv'])
+        if sl is not None and sl[0] is None and p0.get('k') == 'bind':
+            return p0['name'], None, sl[1]
+        return None
+    if it.get('k') == 'mcall' and it.get('name') == 'zip' and len(it.get('args', [])) == 1:
+        for slice_side, range_side, ipat in ((it['recv'], it['args'][0], p1), (it['args'][0], it['recv'], p0)):
+            sl = sliced(slice_side)
+            rf = is_range_struct(range_side)
+            if sl is not None and rf is not None and rf[0] is not None and ipat.get('k') == 'bind':
+                a = sl[0]
+                same = (a is None and hcanon(rf[0]) == ('const', 0)) or (a is not None and hcanon(a) == hcanon(rf[0]))
+                if same and (rf[1] is None or hcanon(rf[1]) == hcanon(sl[1])):
+                    return ipat['name'], a, sl[1]
     return None
 
 
@@ -1134,6 +1196,11 @@ class PathWalker:
             self.block(e['body'], conds + (('loop',),), env)
         elif k == 'closure':
             return
+        elif k == 'mcall' and e.get('name') == 'ok_or' and (e.get('path') or '').endswith('Option::<T>::ok_or') and len(e.get('args', [])) == 1:
+            # `opt.ok_or(err)`: the error value matters only when opt is None
+            self.expr(e['recv'], conds, env)
+            some = {'k': 'tuplestruct', 'path': {'k': 'path', 'path': 'std::option::Option::Some'}, 'pats': [{'k': 'wild'}]}
+            self.expr(e['args'][0], conds + (('let', some, e['recv'], False),), env)
         else:
             for key, v in e.items():
                 if key in ('k',):
@@ -1588,6 +1655,7 @@ def self_helper(adt):
 # --------------------------------------------------------------------------- private aggregates inside the work objects
 
 WORK_ADTS = ('rate::encoder_work::EncoderWork', 'rate::decoder_work::DecoderWork')
+CONST_VALUES = {}     # evaluated integer constants of the crate (driver), union over the fact sets loaded
 FLAT_ADTS = set()      # union over the fact sets loaded in this process (hcanon has no facts argument)
 
 
@@ -1735,4 +1803,49 @@ def _flatten_hir(n, flat):
             if 'ty' in out:
                 m['ty'] = out['ty']
             return m
+    return out
+
+
+# --------------------------------------------------------------------------- models of std calls
+
+
+def model_std_calls(mir):
+    """`Option::ok_or(opt, err)` as the match it stands for:
+         switch discriminant(opt) { Some => dest = Ok((opt as Some).0), None => dest = Err(err) }
+    so that value-flow and path rules see the same thing as for `if let Some(x) = opt { .. } else { return Err(err) }`.
+    Returns None when nothing was rewritten."""
+    blocks = None
+    locals_ = None
+    for bi, blk in enumerate(mir['blocks']):
+        t = blk['term']
+        if t['k'] != 'call' or blk.get('cleanup') or t.get('target') is None:
+            continue
+        p = t['callee'].get('path') or ''
+        if not re.search(r'^std::option::Option::<.*>::ok_or$', p) or len(t['args']) != 2:
+            continue
+        opt = op_place(t['args'][0])
+        if opt is None:
+            continue
+        if blocks is None:
+            blocks = [dict(b) for b in mir['blocks']]
+            locals_ = list(mir['locals'])
+        d = len(locals_)
+        locals_.append({'ty': 'isize', 'user': False, 'mut': False, 'modelled': 'ok_or'})
+        line = t['line']
+        some_bb, none_bb = len(blocks), len(blocks) + 1
+        payload = {'l': opt['l'], 'p': list(opt['p']) + [{'down': 'Some', 'vi': 1}, {'f': '0', 'i': 0, 'ty': '?'}]}
+        mk = lambda variant, vi, op: {'k': 'agg', 'agg': 'adt', 'adt': 'std::result::Result', 'variant': variant, 'vi': vi, 'adt_args': [], 'fields': ['0'], 'ops': [op]}
+        blocks.append({'cleanup': False, 'stmts': [{'k': 'assign', 'lhs': t['dest'], 'rv': mk('Ok', 0, {'move': payload}), 'line': line, 'exp': False}],
+                       'term': {'k': 'goto', 'target': t['target'], 'line': line, 'exp': False}})
+        blocks.append({'cleanup': False, 'stmts': [{'k': 'assign', 'lhs': t['dest'], 'rv': mk('Err', 1, t['args'][1]), 'line': line, 'exp': False}],
+                       'term': {'k': 'goto', 'target': t['target'], 'line': line, 'exp': False}})
+        nb = blocks[bi]
+        nb['stmts'] = list(nb['stmts']) + [{'k': 'assign', 'lhs': {'l': d, 'p': []}, 'rv': {'k': 'discr', 'place': opt}, 'line': line, 'exp': False}]
+        nb['term'] = {'k': 'switch', 'discr': {'move': {'l': d, 'p': []}}, 'targets': [[0, none_bb], [1, some_bb]], 'otherwise': some_bb, 'line': line, 'exp': False,
+                      'modelled': p}
+    if blocks is None:
+        return None
+    out = dict(mir)
+    out['blocks'] = blocks
+    out['locals'] = locals_
     return out
